@@ -79,8 +79,8 @@ func isEmpty(m protoreflect.Message) bool {
 type cmpResult int
 
 const (
-	cmpExact    cmpResult = iota // identical
-	cmpShells                    // identical up to empty shells of unselected parent messages
+	cmpExact  cmpResult = iota // identical
+	cmpShells                  // identical up to empty shells of unselected parent messages
 	cmpDifferent
 )
 
@@ -260,7 +260,7 @@ func scalarValue(fd protoreflect.FieldDescriptor, salt int) protoreflect.Value {
 	panic("scalarValue: " + string(fd.FullName()))
 }
 
-// populatedFraction reports how many top-level fields of m are set (used to tell trivial cases apart).
+// populatedCount reports how many top-level fields of m are set (used to tell trivial cases apart).
 func populatedCount(m proto.Message) int {
 	n := 0
 	if m == nil {
